@@ -24,9 +24,16 @@ JOBS = [
     dict(id='C06.new_page', enforce=X + 'do_allocate_in_new_page',
          replace=PA_STUBS + [X + 'do_allocate_with_page_in_new_page_array', X + 'do_allocate_in_oversize_page'], timeout=1500),
     dict(id='C06.allocate', enforce=X + 'allocate__u64_u64', replace=[X + 'do_allocate_in_new_page'], timeout=1500),
-    dict(id='C06.release.pages.bounded', harness='h_release_pages', defines=['VF_BOUNDED_RELEASE 1'], unwind=17, timeout=1500, bounded='page size 512; <=2 arrays of the kind (newest filled to any level, older full); other kinds in the null state; unwind 17', object_bits=9),
-    dict(id='C06.release.oversize.bounded', harness='h_release_oversize', defines=['VF_BOUNDED_RELEASE 1'], unwind=17, timeout=1500, bounded='page size 512; <=2 arrays of the kind (newest filled to any level, older full); other kinds in the null state; unwind 17', object_bits=9),
-    dict(id='C06.release.tasks.bounded', harness='h_release_tasks', defines=['VF_BOUNDED_RELEASE 1'], unwind=17, timeout=1500, bounded='page size 512; <=2 arrays of the kind (newest filled to any level, older full); other kinds in the null state; unwind 17', object_bits=9),
+    dict(id='C06.release.pages.bounded', harness='h_release_pages', defines=['VF_BOUNDED_RELEASE 1'], unwind=5, timeout=1500, object_bits=9,
+         bounded='page size 256; <=1 PageArray holding 1..3 pages, hosted at the start/end of its newest/oldest page; unwind 5'),
+    dict(id='C06.release.oversize.bounded', harness='h_release_oversize', defines=['VF_BOUNDED_RELEASE 1'], unwind=5, timeout=1500, object_bits=9,
+         bounded='<=1 OversizePageArray holding 1..3 blocks, hosted in the block that created it; block sizes 24/40, alignments 8/32; unwind 5'),
+    dict(id='C06.release.tasks.bounded', harness='h_release_tasks', defines=['VF_BOUNDED_RELEASE 1'], unwind=17, timeout=1500, object_bits=9,
+         bounded='<=2 DestroyTaskArrays (newest filled to any level, older full); unwind 17'),
+    dict(id='C06.release.pages.bounded2', harness='h_release_pages', defines=['VF_BOUNDED_RELEASE 1', 'B_MAXARR 2'], unwind=17, timeout=3000, object_bits=9, mem_gb=40, tier='thorough',
+         bounded='as C06.release.pages.bounded with <=2 chained PageArrays'),
+    dict(id='C06.release.oversize.bounded2', harness='h_release_oversize', defines=['VF_BOUNDED_RELEASE 1', 'B_MAXARR 2'], unwind=17, timeout=3000, object_bits=9, mem_gb=40, tier='thorough',
+         bounded='as C06.release.oversize.bounded with <=2 chained OversizePageArrays'),
     dict(id='C06.allocate8', enforce=X + 'allocate__8', replace=[X + 'do_allocate_in_new_page'], timeout=1500),
 ]
 
